@@ -123,17 +123,19 @@ OPT_TABLE = {
 }
 B_TOKENS = " ".join(ROOT + p + "|" + "|".join(l) for p, l in sorted(OPT_TABLE.items()))
 
-FLAG = {"sc": "--sample-count", "ss": "--sample-size", "th": "--threads", "mx": "--max-time", "ci": "--items-count", "cb": "--bytes-count"}
-ENVV = {"sc": "DIVAN_SAMPLE_COUNT", "ss": "DIVAN_SAMPLE_SIZE", "th": "DIVAN_THREADS", "mx": "DIVAN_MAX_TIME",
+FLAG = {"mn": "--min-time", "sc": "--sample-count", "ss": "--sample-size", "th": "--threads", "mx": "--max-time", "ci": "--items-count", "cb": "--bytes-count"}
+ENVV = {"mn": "DIVAN_MIN_TIME", "se": "DIVAN_SKIP_EXT_TIME", "sc": "DIVAN_SAMPLE_COUNT", "ss": "DIVAN_SAMPLE_SIZE", "th": "DIVAN_THREADS", "mx": "DIVAN_MAX_TIME",
         "ci": "DIVAN_ITEMS_COUNT", "cb": "DIVAN_BYTES_COUNT"}
-BUILD = {"sc": "sample_count", "ss": "sample_size", "th": "threads", "mx": "max_time", "ci": "items_count", "cb": "bytes_count"}
+BUILD = {"mn": "min_time", "se": "skip_ext_time", "sc": "sample_count", "ss": "sample_size", "th": "threads", "mx": "max_time", "ci": "items_count", "cb": "bytes_count"}
 
 
 def gen_opt(rng, k, par):
     src = {"F": [], "E": [], "P": [], "Q": []}
     nset = 0
-    for f in ["sc", "ss", "th", "mx", "ci", "cb"]:
-        p_use = {"sc": 0.5, "ss": 0.7, "th": 0.4, "mx": 0.12, "ci": 0.25, "cb": 0.15}[f]
+    # mn (always 0), se and mx=1000 s have no visible effect here; they ride along so that every pair of run-time options
+    # meets on one command line / environment (clap-level interactions: overrides_with, conflicts_with, defaults, delimiters)
+    for f in ["sc", "ss", "th", "mx", "ci", "cb", "mn", "se"]:
+        p_use = {"sc": 0.5, "ss": 0.7, "th": 0.4, "mx": 0.3, "ci": 0.25, "cb": 0.15, "mn": 0.3, "se": 0.25}[f]
         if rng.random() > p_use:
             continue
         nset += 1
@@ -148,7 +150,11 @@ def gen_opt(rng, k, par):
                 n = rng.choice([1, 1, 2, 2, 3, 4])
                 v = "".join(str(rng.choice(pool)) + "." for _ in range(n))
             elif f == "mx":
+                v = rng.choice(["0", "1000000000000", "1000000000000", "1000000000000"])
+            elif f == "mn":
                 v = "0"
+            elif f == "se":
+                v = str(rng.randrange(2))
             else:
                 v = str(rng.choice([1, 7, 1000]))
             src[w].append(f"{f}={v}")
@@ -166,6 +172,10 @@ def spec_of(case, w):
 def cli_value(f, v, par):
     if f == "th":
         return ",".join(str(par) if x == "P" else x for x in v.split(".") if x)
+    if f in ("mn", "mx"):
+        return str(int(v) // 10**9)
+    if f == "se":
+        return "true" if v == "1" else "false"
     return v
 
 
@@ -173,7 +183,10 @@ def opt_cmd(case, par=1):
     """`P` in a thread list stands for the machine's available parallelism (probed)."""
     args, env, builder = ["--bench", "^hx_select_e2e::opt"], {}, []
     for f, v in spec_of(case, "F"):
-        args += [FLAG[f], cli_value(f, v, par)]
+        if f == "se":
+            args.append("--skip-ext-time=" + cli_value(f, v, par))
+        else:
+            args += [FLAG[f], cli_value(f, v, par)]
     for f, v in spec_of(case, "E"):
         env[ENVV[f]] = cli_value(f, v, par)
     for w, pre in (("P", "pre:"), ("Q", "post:")):
@@ -318,6 +331,23 @@ TIM_FIXED = [
     "s9 #R F:bf=1 E:bf=0 P: Q:bf=0 #V eq",          # bytes_format: builder-after over flag over env
     "s10 #R F: E: P:bf=1,se=0 Q: #V eq",            # only builder calls before parsing: nothing on the command line may undo them
 ]
+LROOT = "hx_select_e2e::lim::"
+LIM_B = f"mx@{LROOT}ceil|-|-|sc=40,ss=1 mn@{LROOT}floor|-|-|sc=1,ss=1"
+MN, MX = "mn=50000000", "mx=60000000"      # 50 ms floor, 60 ms ceiling
+LIM_FIXED = [
+    "l0 #R F: E: P: Q: #V eq #M lim",
+    f"l1 #R F:{MN},{MX} E: P: Q: #V eq #M lim",        # --min-time A --max-time B
+    f"l2 #R F:{MX},{MN} E: P: Q: #V eq #M lim",        # --max-time B --min-time A
+    f"l3 #R F:{MN} E: P: Q: #V eq #M lim",
+    f"l4 #R F:{MX} E: P: Q: #V eq #M lim",
+    f"l5 #R F:{MN} E:{MX} P: Q: #V eq #M lim",         # flag + env mixes
+    f"l6 #R F:{MX} E:{MN} P: Q: #V eq #M lim",
+    f"l7 #R F: E:{MN},{MX} P: Q: #V eq #M lim",
+    f"l8 #R F:{MX} E: P:{MN} Q: #V eq #M lim",         # builder + flag
+    f"l9 #R F:{MN} E: P: Q:{MX} #V eq #M lim",
+    f"l10 #R F:{MX},se=1 E: P: Q: #V bare #M lim",     # skip-ext-time + max-time
+    f"l11 #R F:se=0,{MN} E:{MX} P: Q: #V eq #M lim",
+]
 TF = {"1": "true", "0": "false"}
 BF = {"1": "binary", "0": "decimal"}
 
@@ -330,8 +360,17 @@ def gen_tim(rng, k):
     return f"r{k} #R " + " ".join(f"{w}:" + ",".join(src[w]) for w in "FEPQ") + " #V " + rng.choice(["bare", "eq"])
 
 
+def secs(ns):
+    return ("%f" % (int(ns) / 1e9)).rstrip("0").rstrip(".") or "0"
+
+
+def tim_module(case):
+    return case.split(" #M ")[1].split()[0] if " #M " in case else "tim"
+
+
 def tim_cmd(case):
-    args, env, builder = ["--bench", "^hx_select_e2e::tim"], {"HX_SLEEP_MS": "50"}, []
+    mod = tim_module(case)
+    args, env, builder = ["--bench", "^hx_select_e2e::" + mod], {"HX_SLEEP_MS": "50"}, []
     bare = case.split(" #V ")[1].split()[0] == "bare"
     tail = []
     for f, v in spec_of(case, "F"):
@@ -340,13 +379,21 @@ def tim_cmd(case):
                 tail = ["--skip-ext-time"]       # without a value; last, so that it cannot take the filter for its value
             else:
                 args.append("--skip-ext-time=" + TF[v])
-        else:
+        elif f == "bf":
             args += ["--bytes-format", BF[v]]
+        else:
+            args += ["--min-time" if f == "mn" else "--max-time", secs(v)]
     for f, v in spec_of(case, "E"):
-        env["DIVAN_SKIP_EXT_TIME" if f == "se" else "DIVAN_BYTES_FORMAT"] = TF[v] if f == "se" else BF[v]
+        if f in ("mn", "mx"):
+            env["DIVAN_MIN_TIME" if f == "mn" else "DIVAN_MAX_TIME"] = secs(v)
+        else:
+            env["DIVAN_SKIP_EXT_TIME" if f == "se" else "DIVAN_BYTES_FORMAT"] = TF[v] if f == "se" else BF[v]
     for w, pre in (("P", "pre:"), ("Q", "post:")):
         for f, v in spec_of(case, w):
-            builder.append(pre + ("skip_ext_time=" + TF[v] if f == "se" else "bytes_format=" + BF[v]))
+            if f in ("mn", "mx"):
+                builder.append(pre + ("min_time=" if f == "mn" else "max_time=") + secs(v))
+            else:
+                builder.append(pre + ("skip_ext_time=" + TF[v] if f == "se" else "bytes_format=" + BF[v]))
     env["HX_BUILDER"] = ";".join(builder)
     return args + tail, env
 
@@ -360,13 +407,27 @@ def tim_impl_runner(st, hbin):
             lines.append(f"crash rc={rc} {err.strip().splitlines()[-1:]}")
             continue
         obs = parse_bench(out)
+
+        def samples(path):
+            o = obs.get(path)
+            return int(o["rows"][0][1]) if o and o["rows"] else None
+
+        if tim_module(case) == "lim":
+            # ceil: 40 samples of 2 ms requested (80 ms): fewer only under a ceiling; floor: 1 sample of 5 ms requested:
+            # more only under a floor
+            c, f = samples(LROOT + "ceil"), samples(LROOT + "floor")
+            ents = [LROOT + "ceil=" + ("missing" if c is None else "n" if c == 40 else "C" if 1 <= c < 40 else f"odd-{c}-samples"),
+                    LROOT + "floor=" + ("missing" if f is None else "n" if f == 1 else "F" if f >= 2 else f"odd-{f}-samples")]
+            brow = [l for l in out.splitlines() if "B/s" in l]
+            bf = "bin" if brow and "iB/s" in brow[0] else "dec"
+            lines.append("T " + " ".join(ents) + f" #Z {bf} #B {LIM_B}")
+            continue
         ents = []
         for p in sorted(TIM_TABLE):
-            o = obs.get(TROOT + p)
-            if not o or not o["rows"]:
+            n = samples(TROOT + p)
+            if n is None:
                 ents.append(TROOT + p + "=missing")
                 continue
-            n = int(o["rows"][0][1])
             # 6 samples: external time was skipped; 1-3: the 100 ms budget was used up by the 50 ms generator
             ents.append(TROOT + p + "=" + ("S" if n == 6 else "N" if 1 <= n <= 3 else f"odd-{n}-samples"))
         brow = [l for l in out.splitlines() if "B/s" in l]
@@ -376,7 +437,7 @@ def tim_impl_runner(st, hbin):
 
 
 def tim_model_input(case, impl):
-    return case + " #B " + TIM_B
+    return case + " #B " + (LIM_B if tim_module(case) == "lim" else TIM_B)
 
 
 def streams(tier, rng):
@@ -403,7 +464,7 @@ def streams(tier, rng):
             if spec_of(c, w):
                 bump(op_hist, "source:" + nm)
 
-    tm = corpus_lines("C15-tim") + TIM_FIXED + [gen_tim(rng, k) for k in range(4 if tier == "quick" else 120)]
+    tm = corpus_lines("C15-tim") + TIM_FIXED + LIM_FIXED + [gen_tim(rng, k) for k in range(4 if tier == "quick" else 120)]
 
     def nt_into(c, m):
         xs = c.split()[1:]
